@@ -209,8 +209,26 @@ ScriptStep ==
                   /\ pos' = 9
     [] OTHER -> FALSE
 
+\* delete-files over bundles of more than one index file: two bundles of one repository and one of a
+\* prefix-named neighbour hold the same tree (plus the bulk filler, Bulks = {1001}: two index files);
+\* every non-empty subset ("delfiles-all") or two chosen subsets ("delfiles") of its paths is deleted
+DelTree == [p \in {[p |-> "a", gen |-> FALSE], [p |-> "d/a", gen |-> FALSE], [p |-> "sp ace", gen |-> FALSE]} |-> "s"]
+DelSets == IF Script = "delfiles-all" THEN SUBSET (DOMAIN DelTree) \ {{}}
+           ELSE {{[p |-> "d/a", gen |-> FALSE]}, {[p |-> "a", gen |-> FALSE], [p |-> "sp ace", gen |-> FALSE]}}
+DelScriptStep ==
+  CASE pos = 0 -> GCreateRepo("r1") /\ pos' = 1
+    [] pos = 1 -> GCreateRepo("r1-x") /\ pos' = 2
+    [] pos \in 2..3 -> (\E k \in Bulks : GUpload("r1", DelTree, k)) /\ pos' = pos + 1
+    [] pos = 4 -> (\E k \in Bulks : GUpload("r1-x", DelTree, k)) /\ pos' = 5
+    [] pos = 5 -> (\E ps \in DelSets : GDeleteEntries("r1", ps)) /\ pos' = 9
+    [] OTHER -> FALSE
+
 GNext == /\ stage = "run"
-         /\ IF Script = "squash"
+         /\ IF Script \in {"delfiles", "delfiles-all"}
+              THEN IF pos < 9 THEN DelScriptStep /\ UNCHANGED stage
+                   ELSE stage' = "done" /\ UNCHANGED <<mvars, hist, pos>>
+            ELSE
+            IF Script = "squash"
               THEN IF pos < 9 THEN ScriptStep /\ UNCHANGED stage
                    ELSE stage' = "done" /\ UNCHANGED <<mvars, hist, pos>>
               ELSE /\ UNCHANGED pos
